@@ -704,6 +704,79 @@ func c15IndependentTask(task string, idx int, seed uint64) string {
 			return h.err(err).sum()
 		}
 		h.add("%s", c15Digest(out.Bytes()))
+	case "reflect-write": // Writer.Write(any): every row is taken apart by Schema.Deconstruct
+		buf := new(bytes.Buffer)
+		w := parquet.NewWriter(buf, wSchema, parquet.Compression(wCodec(codecs[idx%len(codecs)])))
+		rows := c15Rows(idx*1000, 60+r.intn(40), seed)
+		for i := range rows {
+			if err := w.Write(&rows[i]); err != nil {
+				return h.err(err).sum()
+			}
+		}
+		if err := w.Close(); err != nil {
+			return h.err(err).sum()
+		}
+		h.add("%s", c15Digest(buf.Bytes()))
+	case "reflect-read": // Reader.Read(any) and GenericReader.Read: rows put together by Schema.Reconstruct
+		buf := new(bytes.Buffer)
+		w := parquet.NewGenericWriter[wRow](buf)
+		want := c15Rows(idx*1000, 60+r.intn(40), seed)
+		if _, err := w.Write(want); err != nil {
+			return h.err(err).sum()
+		}
+		if err := w.Close(); err != nil {
+			return h.err(err).sum()
+		}
+		f, err := parquet.OpenFile(bytes.NewReader(buf.Bytes()), int64(buf.Len()))
+		if err != nil {
+			return h.err(err).sum()
+		}
+		rd := parquet.NewReader(f)
+		for k := 0; ; k++ {
+			var row wRow
+			if err := rd.Read(&row); err != nil {
+				if err != io.EOF {
+					h.err(err)
+				}
+				break
+			}
+			if k < len(want) {
+				h.add("%d|", wSame(row, want[k])) // 0: the row written at this position
+			} else {
+				h.add("extra|")
+			}
+		}
+		rd.Close()
+		// the caller's own loop: rows loaded in batches, then put together one by one
+		rr := parquet.NewReader(f)
+		batch := make([]parquet.Row, 8)
+		for k := 0; ; {
+			n, err := rr.ReadRows(batch)
+			runtime.Gosched()
+			for _, row := range batch[:n] {
+				var x wRow
+				if e := wSchema.Reconstruct(&x, row); e != nil {
+					h.err(e)
+				} else if k < len(want) {
+					h.add("%d|", wSame(x, want[k]))
+				}
+				k++
+			}
+			if err != nil || n == 0 {
+				break
+			}
+		}
+		rr.Close()
+		h.add("%s", c15ReaderTask(f, "genericread", 0, 0))
+	case "rowbuffer":
+		b := parquet.NewRowBuffer[c15KeyRow](parquet.SortingRowGroupConfig(parquet.SortingColumns(parquet.Ascending("k"), parquet.Descending("s"))))
+		b.Write(c15KeyRows(50+r.intn(30), r.next()))
+		sort.Stable(b)
+		rows := b.Rows()
+		if err := c15ReadAllRows(h, rows, 9); err != nil {
+			h.err(err)
+		}
+		rows.Close()
 	case "buffer-sort", "merge":
 		mk := func(s uint64) *parquet.GenericBuffer[c15KeyRow] {
 			b := parquet.NewGenericBuffer[c15KeyRow](parquet.SortingRowGroupConfig(parquet.SortingColumns(parquet.Ascending("k"), parquet.Descending("s"))))
